@@ -719,13 +719,11 @@ func (s *Server) handleConnectionLoop(conn net.Conn, procHandler *NFSProcedureHa
 
 	connID := fmt.Sprintf("conn-%d", s.nextConnID.Add(1))
 
-	var connRateLimiter *RateLimiter
-	if s.handler != nil {
-		connRateLimiter = s.handler.rateLimiter
-	}
 	defer func() {
-		if connRateLimiter != nil {
-			connRateLimiter.CleanupConnection(connID)
+		if s.handler != nil {
+			if rl := s.handler.currentRateLimiter(); rl != nil {
+				rl.CleanupConnection(connID)
+			}
 		}
 	}()
 
@@ -775,7 +773,12 @@ func (s *Server) handleConnectionLoop(conn net.Conn, procHandler *NFSProcedureHa
 				}
 			}
 
-			// Check rate limit
+			// Check rate limit against the limiter in force now, not the one in
+			// force when the connection was opened
+			var connRateLimiter *RateLimiter
+			if s.handler != nil {
+				connRateLimiter = s.handler.currentRateLimiter()
+			}
 			if connRateLimiter != nil && s.handler != nil && s.handler.policy.Load().EnableRateLimiting {
 				if !connRateLimiter.AllowRequest(authCtx.ClientIP, connID) {
 					reply := &RPCReply{
